@@ -25,3 +25,31 @@ package requests
 //@ prop C14
 //@ ensures[error-propagates] ret1(getBodyForUnmarshal) != nil ==> ret1 == ret1(getBodyForUnmarshal) && ret0 == nil && !called(NewJson)
 //@ ensures[undecodable-body-is-an-error] called(NewJson) && ret1(NewJson) != nil ==> ret1 != nil && ret0 == nil
+
+// ------------------------------------------------------------------ C14: a result without an error is a completely received response
+//@ func (*builder).do
+//@ prop C14
+//@ ensures[no-error-only-for-a-completely-read-response] typeis(result, "*result") && (as(result, "*result").err == nil ==>
+//@     ret1(http.NewRequestWithContext) == nil && ret1(Do) == nil && ret1(io.ReadAll) == nil
+//@     && as(result, "*result").response == ret0(Do) && as(result, "*result").body == ret0(io.ReadAll))
+//@ at call io.ReadAll assert[reads-the-response-body] arg(io.ReadAll, 0) == ret0(Do).Body
+
+//@ func (*builder).Do
+//@ prop C14
+//@ ensures[done-once-result-kept] old(r.result) != nil ==> result == old(r.result) && !called(do)
+//@ ensures[otherwise-performs-the-request] old(r.result) == nil ==> called(do) && result == ret(do)
+
+//@ func (*result).Error
+//@ nomod
+//@ prop C14
+//@ ensures[the-recorded-error] result == r.err
+
+//@ func (*result).StatusCode
+//@ nomod
+//@ prop C14
+//@ ensures[status-of-the-response-or-zero] (r.response != nil ==> result == r.response.StatusCode) && (r.response == nil ==> result == 0)
+
+//@ func (*result).Body
+//@ nomod
+//@ prop C14
+//@ ensures[the-read-body] result == r.body
